@@ -6,6 +6,7 @@
 package c02
 
 import (
+	"encoding/json"
 	"errors"
 	"fmt"
 	"github.com/tailscale/setec/audit"
@@ -16,6 +17,7 @@ import (
 	"sync"
 	"sync/atomic"
 	"testing"
+	"verif/harness/internal/httpdrv"
 
 	"verif/harness/internal/evid"
 	"verif/harness/internal/ops"
@@ -260,8 +262,11 @@ func TestC02(t *testing.T) {
 		for i := 0; i < r.N(30, 300); i++ {
 			overlappingPuts(t, r, dir, i)
 		}
+		for i := 0; i < r.N(150, 2000); i++ {
+			httpHistory(t, r, dir, i)
+		}
 	}
-	r.Require("overlapping_puts", "histories", "restarts_inside_histories", "calls_failed_by_io_error", "calls_failed_by_audit_error", "failed_calls", "shape_delete_newest_version", "shape_put_after_newest_deleted", "shape_put_empty_after_newest_deleted",
+	r.Require("http_history_steps", "overlapping_puts", "histories", "restarts_inside_histories", "calls_failed_by_io_error", "calls_failed_by_audit_error", "failed_calls", "shape_delete_newest_version", "shape_put_after_newest_deleted", "shape_put_empty_after_newest_deleted",
 		"shape_put_duplicate_of_newest", "shape_put_duplicate_of_older", "shape_activate_backwards", "shape_recreate_after_delete")
 	r.Rule("seeded random histories of 30-60 operations (all 9 operations, weighted towards put/activate/delete-version) over 3 ordinary names plus the empty and a reserved name, values from a 4-element pool incl. the empty value; oracle after every step. A case is distinct by (operation, precondition class of its name/version argument, model outcome class); named shapes are counted in 'observed'")
 }
@@ -354,4 +359,63 @@ func overlappingPuts(t *testing.T, r *evid.Run, dir string, idx int) {
 		r.Violation("result-differs", idx, fmt.Sprintf("overlapping puts case %d: %d puts, %d distinct versions", idx, W*K, len(seen)), nil)
 	}
 	r.Distinct("overlapping puts on one name")
+}
+
+// httpHistory: the same specification through the real front door (handlers registered by server.New), with
+// request bodies as clients really send them: an empty value as "", as null or left out altogether.
+func httpHistory(t *testing.T, r *evid.Run, dir string, idx int) {
+	r.Eval(1)
+	rng := r.Rand(uint64(77_000_000 + idx))
+	d, err := realdb.Open(filepath.Join(dir, fmt.Sprintf("http%d.db", idx)), realdb.DummyKey("c02h"))
+	if err != nil {
+		t.Error(err)
+		return
+	}
+	srv, err := httpdrv.New(d)
+	if err != nil {
+		t.Error(err)
+		return
+	}
+	const addr = "100.64.0.2:2"
+	all := []refmodel.Rule{{Actions: []string{"get", "info", "put", "activate", "delete"}, Patterns: []string{"*"}}}
+	srv.SetWho(addr, httpdrv.Who{Login: "c02@verif", Node: "c02", Rules: all})
+	cfg := ops.GenCfg{Names: []string{"a", "a", "b", "c/d"}, Values: [][]byte{nil, {}, []byte("one"), []byte("two"), nil},
+		Weights: map[ops.Kind]int{ops.List: 1, ops.Info: 2, ops.Get: 2, ops.GetVer: 2, ops.GetCond: 1, ops.Put: 10, ops.Act: 4, ops.DelVer: 5, ops.Delete: 1}}
+	m := refmodel.New()
+	var trace []string
+	for i := 0; i < 30; i++ {
+		op := ops.Gen(rng, m, cfg)
+		if op.Kind == ops.GetVer && op.Version == 0 {
+			op.Kind = ops.Get
+		}
+		want := ops.ApplyModel(m, nil, true, op)
+		var got ops.Result
+		var rep httpdrv.Reply
+		ok := true
+		if op.Kind == ops.Put && len(op.Value) == 0 && rng.IntN(3) == 0 {
+			// the value left out of the request altogether
+			b, _ := json.Marshal(map[string]any{"Name": op.Name})
+			rep = srv.Raw("POST", "/api/put", addr, httpdrv.GoodHeaders, b)
+			got, ok = httpdrv.Interpret(op, rep)
+		} else {
+			got, rep, ok = srv.Do(addr, op)
+		}
+		spelled := ""
+		if op.Kind == ops.Put && len(op.Value) == 0 {
+			spelled = fmt.Sprintf(" (empty value, nil=%t)", op.Value == nil)
+			r.Count("http_puts_of_an_empty_value", 1)
+		}
+		trace = append(trace, fmt.Sprintf("%s%s -> %d %s", op, spelled, rep.Status, got))
+		r.Count("http_history_steps", 1)
+		if !ok || !ops.Agree(want, got) {
+			r.Violation("result-differs", idx, fmt.Sprintf("http history %d step %d: %s%s answered %d (%s), the specification says %s", idx, i, op, spelled, rep.Status, got, want), map[string]any{"history": trace})
+			return
+		}
+		real, err := realdb.Dump(d)
+		if err != nil || real.Canon() != m.Canon() {
+			r.Violation("state-differs", idx, fmt.Sprintf("http history %d step %d (%s): state differs from the model (err %v)", idx, i, op, err), map[string]any{"history": trace})
+			return
+		}
+	}
+	r.Distinct("http history")
 }
